@@ -12,6 +12,8 @@ loops of `src/lib.rs`.
   permutation of the list (proved in `Props/C18.lean`).
 * `findUniqueLoop` is the `for (candidate, loc) in self.map.iter()` loop with its `found` variable and
   both early returns (`return None` on the second hit, `?` on a candidate without leaf).
+* `record (.ignored _)` is `deserialize_ignored_any`: the entry just recorded for a value Serde discards
+  is removed again (`PathMap::remove`) and nothing below it is recorded.
 * The value type of the map is a parameter `α` (`Locations` in the code; the search never looks inside).
 
 The only operations of this code that can panic are the index expressions of `tokenize_segment`; they
@@ -45,6 +47,9 @@ def get {α} (m : Map α) (p : Path) : Option α := (m.find? (fun e => e.1 == p)
 def insert {α} (m : Map α) (p : Path) (v : α) : Map α :=
   if m.any (fun e => e.1 == p) then m.map (fun e => if e.1 == p then (e.1, v) else e)
   else m ++ [(p, v)]
+
+/-- `HashMap::remove` (`PathMap::remove`) -/
+def remove {α} (m : Map α) (p : Path) : Map α := m.filter (fun e => !(e.1 == p))
 
 /-- the map's keys are pairwise distinct (what a `HashMap` guarantees) -/
 def KeysNodup {α} (m : Map α) : Prop := (m.map (·.1)).Nodup
@@ -269,12 +274,22 @@ inductive Visit (α : Type) where
       pulls; `key = none` is a key that is not a string-like scalar (`stringy_scalar_value() = None`):
       its value is deserialized by a deserializer WITHOUT the recorder -/
   | map (container : α) (entries : List (Option (List Char) × α × Visit α))
+  /-- `deserialize_ignored_any`: Serde asks for this value as `IgnoredAny` (the value of a key that is
+      not a field of the target struct, a skipped element); `inner` is the untyped walk of the node
+      (`deserialize_any`), which only matters for whether it succeeds -/
+  | ignored (inner : Visit α)
+
+/-- is the value handed to `IgnoredAny` -/
+def Visit.isIgnored {α} : Visit α → Bool
+  | .ignored _ => true
+  | _ => false
 
 /-- does the traversal succeed (independent of the recorder) -/
 def Visit.succeeds {α} : Visit α → Bool
   | .leaf ok => ok
   | .seq items => succeedsItems items
   | .map _ entries => succeedsEntries entries
+  | .ignored inner => inner.succeeds
 where
   succeedsItems : List (α × Visit α) → Bool
     | [] => true
@@ -304,6 +319,10 @@ def record {α} : Visit α → Recorder α → Bool × Recorder α
   | .map c entries, r =>
     -- `recorder.map.insert(recorder.current.clone(), ..)` for the container itself
     recordEntries entries { r with map := insert r.map r.current c }
+  | .ignored inner, r =>
+    -- `if let Some(recorder) = self.garde.take() { recorder.map.remove(&recorder.current) }`, then
+    -- `deserialize_any` on a deserializer without recorder
+    (inner.succeeds, { r with map := remove r.map r.current })
 /-- `SA::next_element_seed` called until the first error (Serde visitors stop at the first `Err`) -/
 def recordItems {α} : List (α × Visit α) → Nat → Recorder α → Bool × Recorder α
   | [], _, r => (true, r)
